@@ -1113,7 +1113,7 @@ class Unit:
                     y = x
                 ins = sgb[y]
                 # must come before any wrapper a rewrite opens at the same token
-                edits.append(Edit(ins, ins, "\n" + tpl_text(lines), ("tpl", relname, lines[0][1] - 1), order=-1))
+                edits.append(Edit(ins, ins, "\n" + tpl_text(lines), ("tpl", relname, lines[0][1] - 1), order=-3))
         for k, tok, lines in fs.after:
             optional = tok.endswith(" ?optional")
             if optional:
